@@ -344,26 +344,11 @@ theorem withReg_exited (w : World K) (f : (List (K × K × K) → K × K) → Re
 theorem applyOut_exited (wt : K → K) (ct : K) (w : World K) (o : Out) :
     (World.applyOut wt ct w o).exited = w.exited := by
   unfold World.applyOut
-  simp only []
-  split
-  · rfl
-  · split
-    · rfl
-    · split
-      · rw [withReg_exited]
-      · rw [withReg_exited]
-    · rfl
-    · show (World.withReg _ _).exited = _; rw [withReg_exited]
-    · split
-      · split
-        · split <;> rfl
-        · rfl
-      · split
-        · split
-          · split <;> rfl
-          · rfl
-        · rfl
-    · rfl
+  cases o <;> simp only [] <;> (repeat' split) <;>
+    first
+      | rfl
+      | (rw [withReg_exited])
+      | (show (World.withReg _ _).exited = _; rw [withReg_exited])
 
 theorem foldl_applyOut_exited (wt : K → K) (ct : K) (outs : List Out) :
     ∀ w : World K, (outs.foldl (World.applyOut wt ct) w).exited = w.exited := by
@@ -399,6 +384,25 @@ theorem beginWait_exited (w : World K) (bell : Nat) (uc hand : Bool) :
   · rfl
   · simp only []
     split <;> (split <;> rfl)
+
+omit [Num K] in
+/-- **Look To is activity**: the moment an accepted Look To begins to be handled — on the socket
+thread, before it goes to sleep inside `initialise_line` and long before it sets `is_ringing` — the
+inactivity clock is restarted … -/
+theorem look_to_is_activity (w : World K) (s : Susp K) (wr : WaitR K) :
+    (w.lookToBegin s wr).lastActivity = w.now ∧ (w.lookToBegin s wr).now = w.now ∧
+    (w.lookToBegin s wr).suspended = some s := ⟨rfl, rfl, rfl⟩
+
+/-- … and likewise when the whole handler runs at once (keep-going rhythm, `--look-to-time` start-up). -/
+theorem look_to_is_activity_atomic (wt : K → K) (ct : K) (w : World K) (stage n : Nat) (ut : Bool) :
+    (World.applyOut wt ct w (.rInit stage ut n)).lastActivity = w.now := by
+  unfold World.applyOut
+  simp only []
+  split
+  · rfl
+  · split
+    · unfold World.withReg; simp only []; split <;> (split <;> rfl)
+    · unfold World.withReg; simp only []; split <;> (split <;> rfl)
 
 /-- **Exit law**: the main loop returns only from the idle loop, only in server mode, only when not
 ringing, and only after more than `INACTIVITY_EXIT_TIME` (300 s, regenerated from the source) without
